@@ -198,6 +198,7 @@ impl Harness for C20 {
                 "matrix_operations": format!("every BaseMatrix / MatrixStats / MatrixPreprocessing / HighOrderOperations method (all parameter instances: every slice range, every reshape target, every index list of length <= 2{}, every element position) x every shape 1<=r,c<={} x 4 value alphabets x 2 operand layouts; two-operand methods x every pair of shapes within the bound x 4 layout combinations (compatible and incompatible)", if t { " (3 for axes <= 4)" } else { "" }, nmax),
                 "vector_operations": format!("every BaseVector method x every length 1..={} (pairs of lengths for two-operand methods) x 4 value alphabets x 3 vector sources (from_array, get_row of a transposed-layout matrix, to_row_vector of a column matrix)", vmax),
                 "value_alphabets": FILLS,
+                "norm_orders": "norm(p) of matrices and vectors for p in {1, 2, 3, 0.5, -1, +inf, -inf} (p = -1 on operands containing an exact zero gives 0 by IEEE arithmetic: inf^-1)",
                 "layouts": bk::LAYOUTS,
                 "chains_E2": format!("6 start shapes <= 2x3, 16 actions, every history of length <= {}", if t { 5 } else { 3 }),
                 "estimators": format!("{} estimators x every data set of {} rows drawn (with repetition, ordered) from a {}-point lattice x 3-6 target patterns x every listed configuration x 2 input layouts; queries = the 3x3 lattice", est::FIRST_DECOMPOSITION, if t { 5 } else { 4 }, if t { 9 } else { 6 }),
